@@ -6,7 +6,7 @@ from ..pyexec import Sym, Const, Ref, Arr
 from ..contract import REGISTRY
 from ..lemma import LFrame
 
-MUTATING = ("setattr", "kernel", "copyto", "arr-store", "savez", "delattr", "shm.close", "shm.unlink", "shm-create")
+MUTATING = ("setattr", "kernel", "copyto", "arr-store", "savez", "delattr", "shm.close", "shm.unlink", "shm-create", "counter-clear", "counter-store")
 
 
 def good_objects(ex, clsname, tag, shared=False, st=None, **kw):
@@ -201,6 +201,54 @@ def integrity_bundle(chk, classes, found=None, merge_tree=True):
         steps.append(("log constructors", lambda: C18.constructor_rows(chk, cm)))
     steps.append(("save/load", lambda: C10.part(chk, list(classes))))
     steps.append(("merge()", lambda: C15.merge_glue(chk, list(classes))))
+
+    def merge_kernels():
+        # the kernels those merge() methods reach, against their full contracts (tables merged cell
+        # by cell, both bookkeeping counters summed, the other operand untouched)
+        from . import _cm, _hh, _log
+
+        for q in sorted(set(C15.MERGE_KERNEL[c] for c in classes)):
+            if q.startswith("heavyhitters."):
+                _hh.kernels(chk, [q])
+            elif q == "countmin._merge_linear":
+                chk.kernel(q, replayer=_cm.make_replayer(q))
+            elif q.startswith("countmin._merge_log"):
+                chk.kernel("countmin._counter2value")
+                chk.kernel(q, replayer=lambda c, bad, tir, contract, q=q: (_log.runtime_search(c, [q], 100)[1] if q in _log.ARGS else None))
+            else:
+                chk.kernel(q)
+        # bounded companion (a rewritten kernel may leave the verifier's subset): the contract clauses
+        # evaluated on random executions of the real merge kernels
+        if ("merge-kernels-runtime",) in chk.done:
+            return
+        chk.done.add(("merge-kernels-runtime",))
+        import random as _r
+
+        bad, cases = None, 0
+        for q in sorted(set(C15.MERGE_KERNEL[c] for c in classes)):
+            try:
+                if q == "hyperloglog._merge":
+                    from . import C02
+
+                    b_ = C02.runtime_cases(chk, _r.Random(chk.seed + 7), 16)
+                    cases += 16
+                elif q == "heavyhitters._merge":
+                    n_, b_ = _hh.runtime_search(chk, [q], 12)
+                    cases += n_
+                elif q == "countmin._merge_linear":
+                    n_, b_ = _cm.runtime_search(chk, [q], 12)
+                    cases += n_
+                else:
+                    n_, b_ = _log.runtime_search(chk, [q], 12)
+                    cases += n_
+            except Exception as e:  # the kernel itself failed on a legal input
+                b_ = {"key": q, "observed": "raised %s: %s" % (type(e).__name__, e), "how": "runtime contract evaluation"}
+            bad = bad or b_
+        if bad:
+            chk.violation("merge-kernels:runtime:contracts", {"verdict": "runtime contract check failed"}, bad)
+        chk.bounded_standin("merge kernel contract clauses evaluated on random executions of the real kernels", "%d runs" % cases, cases, int(bool(bad)))
+
+    steps.append(("merge kernels", merge_kernels))
     steps.append(("attach_shared_memory", lambda: C16.attach_helper_part(chk, ex, found, list(classes))))
     ex3 = glue.make_exec(chk, {("call", "HeavyHitters.generate_candidate_set"): glue._stub_gcs})
     for c in classes:
